@@ -228,6 +228,8 @@ def search(ctx, exe, drv, case, oracle_fn, n=40):
 
 
 def judge(ctx, prop, results, oracle_fn, points, broken, log, exe, drv, assumptions, extra_trusted=()):
+    static = dc.source_order_check()
+    ctx.cov["step_table_check"] = {"functions": len(dc.STEP_TABLE), "accesses": sum(len(x[1]) for x in dc.STEP_TABLE), "problems": static}
     hist = dc.point_histogram(results)
     failing = [(r, oracle_fn(r)) for r in results]
     failing = [(r, b) for r, b in failing if b]
@@ -246,6 +248,7 @@ def judge(ctx, prop, results, oracle_fn, points, broken, log, exe, drv, assumpti
     ctx.cov["evaluations"] = len(results)
     ctx.cov["samples"] += [{"case": r["case"], "verdict": r["verdict"], "model": r["model"]} for r in results[:1] + results[-1:]]
     ctx.cov["trusted_base"] += ["extraction: ExtrOcamlBasic only; ocaml/driver_C01.ml (fires the silent lock-acquisition / wait-loop steps as late as possible; accepts lk=1 in a snapshot while the model's acquisition is still pending), ocaml/zio.ml",
+                                "tools/props/desc_common.py STEP_TABLE: regular expressions over the preprocessed source (gcc -E) for the order of the shared accesses inside each step",
                                 "harness/lib_interp.c schedule controller and interpreter; tools/props/desc_common.py projection (incarnation numbering, ledger attribution of alloc.stack to the record obtained just before on the same worker)",
                                 "modelled, not verified: the run queues (who runs where; C02), the context switch itself (C03), the allocator's addresses (C12); TSO is the assumed hardware model for C01_visibility_partial"] + list(extra_trusted)
     missing = [p for p in points if not hist.get(p)]
@@ -263,6 +266,14 @@ def judge(ctx, prop, results, oracle_fn, points, broken, log, exe, drv, assumpti
             ctx.violation("correspondence", "trace of the library is not a run of coq/Sched/DescModel.v on %d run(s); first: %s" % (len(disagree), r["model"]),
                           {"theorem_or_correspondence": "correspondence Sched/DescModel.v <-> src/myth_sched_func.h (create/finish/join/tryjoin/detach)",
                            "case": r["case"], "observed": r["fail_context"], "expected": "every trace line is the model's next step with equal descriptor words"}, found=False)
+    elif static:
+        fr, fb = search(ctx, exe, drv, results[0]["case"], oracle_fn) if results else (None, None)
+        if fr is not None:
+            ctx.violation("oracle", fb[0], {"case": fr["case"], "observed": fb[:10], "level": "library", "found_by": "search after a step-table mismatch"}, found=True)
+        else:
+            ctx.violation("correspondence", "the order of shared accesses inside a step differs from the model's step table: " + "; ".join(static)[:600],
+                          {"theorem_or_correspondence": "step table of Sched/DescModel.v <-> preprocessed src/myth_sched_func.h (accesses between two POINTs cannot be interleaved by the controller, so their order is checked on the text)",
+                           "observed": static, "expected": [list(x) for x in dc.STEP_TABLE]}, found=False)
     elif missing:
         ctx.violation("coverage", "POINT(s) never executed by the generated programs: " + ", ".join(missing),
                       {"theorem_or_correspondence": "coverage of the correspondence", "histogram": hist}, found=False)
